@@ -88,8 +88,7 @@ Lemma quantile_pp_interp : forall F x pp,
    ((0 < w)%Q /\ (p + 1 <= Z.of_nat (length x) - 1)%Z /\
     exists x' am aM q, quantile_pp F x pp true = Ok (x', QVal q) /\ Permutation x' x /\
       (q == (1 - w) * inject_Z am + w * inject_Z aM)%Q /\
-      is_kth x (S (Z.to_nat p)) aM /\
-      (is_kth x (Z.to_nat p) am \/ (p + 2 = Z.of_nat (length x))%Z /\ am = aM))).
+      is_kth x (Z.to_nat p) am /\ is_kth x (S (Z.to_nat p)) aM)).
 Proof.
   intros F x pp Hn HF H0 H1 p w.
   destruct (ctrunc_bounds pp H0) as (A & B & C).
@@ -114,11 +113,10 @@ Proof.
       assert (Hlt : (p < Z.of_nat (length x) - 1)%Z); [|lia].
       rewrite Zlt_Qlt. unfold w in Hw. lra. }
     split; [exact Hp1|].
-    destruct (pth_interval_gen F x (Z.to_nat p)) as (x' & am & aM & Rr & Perm & Ka & Kb); try lia.
+    destruct (pth_interval_ok F x (Z.to_nat p)) as (x' & am & aM & Rr & Perm & Ka & Kb); try lia.
     rewrite Rr. cbn [bind].
     exists x', am, aM, (Qred ((1 - w) * inject_Z am + w * inject_Z aM)).
-    split; [reflexivity|]. split; [exact Perm|]. split; [apply Qred_correct|]. split; [exact Ka|].
-    destruct Kb as [Kb|[Kb1 Kb2] ]; [left; exact Kb|right]. split; [lia|exact Kb2].
+    split; [reflexivity|]. split; [exact Perm|]. split; [apply Qred_correct|]. split; assumption.
 Qed.
 
 (* ---------------------------------------------------------------- quantile (ratio level) *)
